@@ -26,7 +26,9 @@ PROPS = {
     "C06": dict(mod="checks.c06", quick_runs=48, thorough_s=1500, opts=dict(max_nodes=4, max_steps=8, compiled_p=0.4), thorough_opts=dict(max_nodes=5, max_steps=12, compiled_p=0.6)),
     "C07": dict(mod="checks.c07", quick_runs=32, thorough_s=1500, opts=dict(max_nodes=4, max_steps=8, pairs=2, generated_p=0.3), thorough_opts=dict(max_nodes=5, max_steps=12, pairs=6, generated_p=0.3)),
     "C08": dict(mod="checks.c08", quick_runs=32, thorough_s=1500, opts=dict(max_nodes=4, max_steps=9, variants=2), thorough_opts=dict(max_nodes=5, max_steps=12, variants=5)),
+    "C10": dict(mod="checks.c10", quick_runs=24, thorough_s=1500, opts=dict(max_nodes=3, max_steps=9), thorough_opts=dict(max_nodes=4, max_steps=12)),
     "C13": dict(mod="checks.c13", quick_runs=48, thorough_s=1500, opts=dict(max_nodes=4, variants=4, compiled_p=0.35), thorough_opts=dict(max_nodes=5, variants=8, compiled_p=0.6)),
+    "C16": dict(mod="checks.c16", quick_runs=48, thorough_s=1200, opts=dict(max_nodes=4), thorough_opts=dict(max_nodes=5)),
 }
 
 
